@@ -248,7 +248,8 @@ def check(ctx):
     # every struct the plain mode declares gets a schema: generate_struct_schema has no way out that emits nothing
     struct_emitter_total(ctx.P, r2_pending, r2_ok)
     # the `?` of the plain declaration agrees with the schema's .optional(): both look at the type's last path segment (rule shared with C04-D4)
-    from c04 import check_optional_predicate
+    from c04 import check_optional_predicate, _P_holder
+    _P_holder["P"] = ctx.P
     check_optional_predicate(S, "StructParser", r1)
     # enums
     ge = [f for f in S.fns if f.owner == "ZodBindingsGenerator" and f.name == "generate_enum_schema"]
